@@ -395,3 +395,83 @@ Proof.
   unfold map_tres, map_qrule. cbn [t_rule t_shift t_fut qh qb fst snd]. f_equal. f_equal. f_equal. rewrite map_app. f_equal. destruct (is_final (fp A r)); reflexivity.
 Qed.
 End Natural.
+(* ---------------- a rule is rejected exactly if one of its atoms stands at a placement the property's table forbids (C11) ---------------- *)
+Section Accept.
+Variable A : Type.
+Definition lit_allowed (sh : shape) (l : fsgn * fbatom A) : bool :=
+  match snd l with
+  | FAt _ _ lead trail => match allowed sh (BodyLit (is_pos (fst l))) (Z.of_nat trail - Z.of_nat lead)%Z false with EAccept => true | _ => false end
+  | FInit _ _ => match allowed sh (BodyLit (is_pos (fst l))) 0%Z true with EAccept => true | _ => false end
+  | FKwI _ | FKwF _ => true
+  | FTel _ => negb (negb (negb (is_pos (fst l))) && negb (is_constraint_spec sh))          (* rejected exactly in a positive body literal of a non-constraint *)
+  end.
+Definition head_allowed (h : fhead A) : bool :=
+  match h with
+  | FNorm _ _ n => match allowed (shape_of A h) HeadLit (Z.of_nat n) false with EAccept => true | _ => false end
+  | _ => true
+  end.
+Lemma decide_is_accept sh pl lead trail ini : wf_place sh pl = true -> (ini = true -> lead = 0 /\ trail = 0) ->
+  (exists r la ts tz, decide sh pl lead 1 trail ini = Accept r la ts tz) <-> allowed sh pl (Z.of_nat trail - Z.of_nat lead)%Z ini = EAccept.
+Proof.
+  intros WP WF. pose proof (decide_spec sh pl lead 1 trail ini WP WF) as S. destruct (decide sh pl lead 1 trail ini) as [r la ts tz| | |]; cbn [verdict_class] in S.
+  - injection S as <-. split; [reflexivity|intros _; eauto].
+  - injection S as E. rewrite <- E. split; [intros (r & la & ts & tz & X); discriminate X|discriminate].
+  - injection S as E. rewrite <- E. split; [intros (r & la & ts & tz & X); discriminate X|discriminate].
+  - discriminate.
+Qed.
+Lemma tr_blit_some sh l : (exists y, tr_blit A sh l = Some y) <-> lit_allowed sh l = true.
+Proof.
+  destruct l as [s b]. destruct b as [a lead trail|a| | |]; cbn [tr_blit lit_allowed fst snd].
+  - pose proof (decide_is_accept sh (BodyLit (is_pos s)) lead trail false eq_refl (fun X => ltac:(discriminate X))) as [K1 K2].
+    destruct (decide sh (BodyLit (is_pos s)) lead 1 trail false) as [r la ts tz| | |] eqn:Dd.
+    + destruct (decide_accept _ _ _ _ _ _ _ _ _ _ Dd) as (_ & _ & Er & _). cbn [head_before andb] in Er. rewrite andb_false_r in Er. subst r.
+      rewrite (K1 (ex_intro _ _ (ex_intro _ _ (ex_intro _ _ (ex_intro _ _ eq_refl))))). split; [reflexivity|intros _; eauto].
+    + split; [intros [y X]; discriminate X|]. intros E. destruct (allowed sh (BodyLit (is_pos s)) (Z.of_nat trail - Z.of_nat lead) false) eqn:Al; try discriminate. destruct (K2 eq_refl) as (r & la & ts & tz & X). discriminate X.
+    + split; [intros [y X]; discriminate X|]. intros E. destruct (allowed sh (BodyLit (is_pos s)) (Z.of_nat trail - Z.of_nat lead) false) eqn:Al; try discriminate. destruct (K2 eq_refl) as (r & la & ts & tz & X). discriminate X.
+    + split; [intros [y X]; discriminate X|]. intros E. destruct (allowed sh (BodyLit (is_pos s)) (Z.of_nat trail - Z.of_nat lead) false) eqn:Al; try discriminate. destruct (K2 eq_refl) as (r & la & ts & tz & X). discriminate X.
+  - pose proof (decide_is_accept sh (BodyLit (is_pos s)) 0 0 true eq_refl (fun _ => conj eq_refl eq_refl)) as [K1 K2]. change (Z.of_nat 0 - Z.of_nat 0)%Z with 0%Z in K1, K2.
+    destruct (decide sh (BodyLit (is_pos s)) 0 1 0 true) as [r la ts tz| | |] eqn:Dd.
+    + destruct (decide_accept _ _ _ _ _ _ _ _ _ _ Dd) as (_ & _ & Er & _). cbn in Er. subst r.
+      rewrite (K1 (ex_intro _ _ (ex_intro _ _ (ex_intro _ _ (ex_intro _ _ eq_refl))))). split; [reflexivity|intros _; eauto].
+    + split; [intros [y X]; discriminate X|]. intros E. destruct (allowed sh (BodyLit (is_pos s)) 0 true) eqn:Al; try discriminate. destruct (K2 eq_refl) as (r & la & ts & tz & X). discriminate X.
+    + split; [intros [y X]; discriminate X|]. intros E. destruct (allowed sh (BodyLit (is_pos s)) 0 true) eqn:Al; try discriminate. destruct (K2 eq_refl) as (r & la & ts & tz & X). discriminate X.
+    + split; [intros [y X]; discriminate X|]. intros E. destruct (allowed sh (BodyLit (is_pos s)) 0 true) eqn:Al; try discriminate. destruct (K2 eq_refl) as (r & la & ts & tz & X). discriminate X.
+  - split; [reflexivity|intros _; eauto].
+  - split; [reflexivity|intros _; eauto].
+  - assert (is_constraint_gen (is_rule sh) (head_is_literal sh) (atom_is_boolconst sh) (atom_is_symbolic sh) (value sh) (nosign sh) = Some (is_constraint_spec sh)) as ->
+      by (destruct sh as [r l b sy v n]; destruct r, l, b, sy, v, n; reflexivity).
+    destruct (tel_ctx_spec (negb (is_pos s)) (is_constraint_spec sh)) as [-> _].
+    destruct (negb (negb (is_pos s)) && negb (is_constraint_spec sh)); cbn [negb].
+    + split; [intros [y X]; discriminate X|intros X; discriminate X].
+    + split; [reflexivity|intros _; eauto].
+Qed.
+Lemma tr_body_some sh : forall l, (exists y, tr_body A sh l = Some y) <-> forallb (lit_allowed sh) l = true.
+Proof.
+  induction l as [|x l IH]; cbn [tr_body forallb]; [split; [reflexivity|intros _; eauto]|].
+  rewrite andb_true_iff, <- IH, <- (tr_blit_some sh x). split.
+  - intros [y E]. destruct (tr_blit A sh x) as [[y1 m1]|]; [|discriminate]. destruct (tr_body A sh l) as [[ys m2]|]; [|discriminate]. split; eauto.
+  - intros [[y1 E1] [y2 E2]]. rewrite E1, E2. destruct y1, y2. eauto.
+Qed.
+(* a rule of the fragment is accepted by the transformer exactly if every atom of it stands at an allowed placement (Proofs/CtxProofs.allowed, written
+   from the property text): future atoms only in the head of a normal rule or in a constraint, past / initially atoms not in a positive head, theory
+   atoms not in a positive body literal of a non-constraint *)
+Theorem rule_accepted_iff_all_placements_allowed (r : frule A) :
+  (exists t, transform_rule A r = Some t) <-> head_allowed (fh A r) = true /\ forallb (lit_allowed (shape_of A (fh A r))) (fb A r) = true.
+Proof.
+  unfold transform_rule. rewrite <- (tr_body_some (shape_of A (fh A r)) (fb A r)).
+  assert ((exists y, tr_head A (fh A r) = Some y) <-> head_allowed (fh A r) = true) as Hh.
+  { destruct (fh A r) as [a n|l|l| |] eqn:Hf; cbn [tr_head head_allowed]; [| | |split; [intros _; reflexivity|intros _; eexists; reflexivity]|split; [intros _; reflexivity|intros _; eexists; reflexivity]].
+    - pose proof (decide_is_accept (shape_of A (FNorm A a n)) HeadLit 0 n false eq_refl (fun X => ltac:(discriminate X))) as [K1 K2]. replace (Z.of_nat n - Z.of_nat 0)%Z with (Z.of_nat n) in K1, K2 by lia.
+      destruct (decide (shape_of A (FNorm A a n)) HeadLit 0 1 n false) as [ren la ts tz| | |] eqn:Dd.
+      + destruct (decide_accept _ _ _ _ _ _ _ _ _ _ Dd) as (_ & _ & _ & El). cbn [head_before lit_nosign shape_of nosign andb negb] in El. rewrite andb_false_r in El. subst la.
+        rewrite (K1 (ex_intro _ _ (ex_intro _ _ (ex_intro _ _ (ex_intro _ _ eq_refl))))). split; [reflexivity|intros _; eauto].
+      + split; [intros [y X]; discriminate X|]. intros E. destruct (allowed (shape_of A (FNorm A a n)) HeadLit (Z.of_nat n) false) eqn:Al; try discriminate. destruct (K2 eq_refl) as (r0 & la & ts & tz & X). discriminate X.
+      + split; [intros [y X]; discriminate X|]. intros E. destruct (allowed (shape_of A (FNorm A a n)) HeadLit (Z.of_nat n) false) eqn:Al; try discriminate. destruct (K2 eq_refl) as (r0 & la & ts & tz & X). discriminate X.
+      + split; [intros [y X]; discriminate X|]. intros E. destruct (allowed (shape_of A (FNorm A a n)) HeadLit (Z.of_nat n) false) eqn:Al; try discriminate. destruct (K2 eq_refl) as (r0 & la & ts & tz & X). discriminate X.
+    - assert (plain_elem (shape_of A (FDisj A l)) = true) as -> by reflexivity. split; [intros _; reflexivity|intros _; eexists; reflexivity].
+    - assert (plain_elem (shape_of A (FChoice A l)) = true) as -> by reflexivity. split; [intros _; reflexivity|intros _; eexists; reflexivity]. }
+  rewrite <- Hh. split.
+  - intros [t E]. destruct (tr_head A (fh A r)) as [[hd fut]|]; [|discriminate]. destruct (tr_body A (shape_of A (fh A r)) (fb A r)) as [[bd m]|]; [|discriminate]. split; eauto.
+  - intros [[[hd fut] E1] [[bd m] E2]]. rewrite E1, E2. eauto.
+Qed.
+End Accept.
